@@ -260,6 +260,22 @@ func FillRules(helper *ssa.Function, callers []*ssa.Function, modelingPath strin
 			events = append(events, fillEvent{bound, at, l.Header})
 		}
 	}
+	// a fill by allocation: make([]T, len(data)+count) leaves count zero elements behind the copy
+	ssau.AllInstrs(helper, func(in ssa.Instruction) {
+		ms, ok := in.(*ssa.MakeSlice)
+		if !ok {
+			return
+		}
+		add, ok := ms.Len.(*ssa.BinOp)
+		if !ok || add.Op != token.ADD {
+			return
+		}
+		for _, v := range []ssa.Value{add.X, add.Y} {
+			if p, ok := v.(*ssa.Parameter); ok && (p == ints[0] || p == ints[1]) {
+				events = append(events, fillEvent{p, ms, ms.Block()})
+			}
+		}
+	})
 	for _, lit := range helper.AnonFuncs {
 		var litInts []*ssa.Parameter
 		for _, p := range lit.Params {
